@@ -277,6 +277,49 @@ func (p *Prog) classifyMapLoop(fn *ssa.Function, rg *ssa.Range, next *ssa.Next, 
 			}
 		}
 	}
+	// leaving the loop before the map is exhausted (break, a counter that stops the scan): which entries were
+	// processed then depends on the iteration order - unless nothing was done to any entry (a pure search
+	// whose result is a constant or an abort)
+	perKeyEffects := false
+	for _, b := range fn.Blocks {
+		if !blocks[b] {
+			continue
+		}
+		for _, in := range b.Instrs {
+			switch x := in.(type) {
+			case *ssa.MapUpdate:
+				_ = x
+				perKeyEffects = true
+			case *ssa.Store:
+				if _, isAl := x.Addr.(*ssa.Alloc); !isAl && rootOfAddr(x.Addr) != "fresh" {
+					perKeyEffects = true
+				}
+			}
+			if cc, ok := isBuiltinCall(in, "delete"); ok && len(cc.Args) == 2 {
+				perKeyEffects = true
+			}
+		}
+	}
+	if perKeyEffects {
+		for _, b := range fn.Blocks {
+			if !blocks[b] || b == next.Block() {
+				continue
+			}
+			for _, sc := range b.Succs {
+				if blocks[sc] {
+					continue
+				}
+				// an exit from inside the body: fine if it only leads to returns of constants / errors
+				last := sc.Instrs[len(sc.Instrs)-1]
+				if ret, ok := last.(*ssa.Return); ok {
+					if cl, _ := classifyReturn(ret); cl == retError {
+						continue // abort with an error: the request fails whatever was processed
+					}
+				}
+				problems = append(problems, "the loop updates entries and can be left before the map is exhausted (exit at "+p.InstrPos(b.Instrs[len(b.Instrs)-1])+"): which entries were updated depends on the iteration order")
+			}
+		}
+	}
 	// loop-carried variables: only commutative accumulation
 	for _, in := range next.Block().Instrs {
 		phi, ok := in.(*ssa.Phi)
